@@ -35,6 +35,10 @@ var (
 func LoadRules(rules []*Rule) (bool, error) {
 	resRulesMap := make(map[string][]*Rule, 16)
 	for _, rule := range rules {
+		if rule == nil {
+			logging.Warn("[Isolation LoadRules] Ignoring nil rule")
+			continue
+		}
 		resRules, exist := resRulesMap[rule.Resource]
 		if !exist {
 			resRules = make([]*Rule, 0, 1)
